@@ -800,6 +800,14 @@ impl UdpSocket {
                 w.log(12, self.sid as u64, buf.len() as u64);
                 return Ok(buf.len());
             };
+            let (pf, pu) = w.knobs.udp_partition_ns;
+            if pu > pf && t_ns >= pf && t_ns < pu && (w.knobs.udp_fault_ports.contains(&dst.port()) || w.knobs.udp_fault_ports.contains(&from.port())) {
+                rec.fate = 1;
+                w.udp_sends.push(rec);
+                w.stats.udp_partitioned += 1;
+                w.log(12, self.sid as u64, buf.len() as u64);
+                return Ok(buf.len());
+            }
             let k = &w.knobs;
             let faulty = (k.udp_loss_pm > 0 || k.udp_dup_pm > 0 || k.udp_reorder_pm > 0)
                 && (k.udp_fault_ports.is_empty() || k.udp_fault_ports.contains(&dst.port()) || k.udp_fault_ports.contains(&from.port()));
